@@ -37,7 +37,8 @@ class MtMirror:
     def __init__(self, build, su, time_ns, height):
         self.h = Harness(build)
         self.su = su
-        self.h.call({"op": "mt_reset", "chain_prefix": su.chain_prefix, "addr": su.contract, "time": str(time_ns), "height": height})
+        self.h.call({"op": "mt_reset", "chain_prefix": su.chain_prefix, "addr": su.contract, "time": str(time_ns), "height": height,
+                     "chain_id": getattr(su, "chain_id", None)})
         self.events = 0
         self.calls = 0
 
